@@ -330,8 +330,25 @@ def g_cand(rng):
     return f"cand {A.tok()}"
 
 
+def chain_ta(rng):
+    """4-6 states that all own the same leaf rule, binary rules over earlier states (the shape on which the simulation engine
+    has to split blocks while removals are pending: root-only states that never occur at some child position)"""
+    n = rng.randint(3, 6)
+    st = list(range(n)) if rng.random() < 0.5 else sorted(rng.sample(range(30), n))
+    leaf, f2 = 1, 4
+    rules = [(leaf, (), q) for q in st if rng.random() < 0.9]
+    for i in range(1, n):
+        for _ in range(rng.choice([1, 1, 2])):
+            a, b = rng.choice(st[:i + (1 if rng.random() < 0.2 else 0)]), rng.choice(st[:i + (1 if rng.random() < 0.2 else 0)])
+            rules.append((f2, (a, b), st[i]))
+    if rng.random() < 0.3:
+        rules.append((3, (rng.choice(st),), rng.choice(st)))
+    finals = sorted({rng.choice(st) for _ in range(rng.choice([1, 2, 2]))})
+    return TA(rules, finals)
+
+
 def g_reduce(rng):
-    A = rand_ta(rng, nmax=4, dense=rng.random() < 0.5)
+    A = chain_ta(rng) if rng.random() < 0.35 else rand_ta(rng, nmax=4, dense=rng.random() < 0.5)
     if rng.random() < 0.6 and A.states():
         # duplicate a state (simulation-equivalent copy)
         st = A.states()
@@ -831,18 +848,21 @@ def g_mth(rng, rc=False):
         elif c < 0.80:
             steps.append(f"ap3!{i}!{j}!{l}!{rng.randrange(0, 3)}")
             new(max(mi, mj, ml))
-        elif c < 0.85 and not rc:
-            steps.append(f"proj!{i}!{rng.randrange(1, 1 << MT_NQ)}!{rng.choice([2, 3, 2, 3, 0])}")
+        elif c < 0.87 and not rc:
+            # non-idempotent leaf operations matter: with them op(x, x) != x, so a node whose two projected children
+            # coincide must still be combined; masks with several variables make such nodes
+            mask = rng.randrange(1, 1 << MT_NQ) | (rng.randrange(1, 1 << MT_NV) if rng.random() < 0.5 else 0)
+            steps.append(f"proj!{i}!{mask}!{rng.choice([0, 0, 1, 2, 3])}")
             new(mi)
-        elif c < 0.89 and mi <= MT_NV:
+        elif c < 0.90 and mi <= MT_NV:
             off = rng.randint(0, MT_NQ - MT_NV)
             steps.append(f"ren!{i}!{off}")
             new(mi + off)
-        elif c < 0.92 and mi <= MT_NV:
+        elif c < 0.93 and mi <= MT_NV:
             k = MT_NQ - MT_NV
             steps.append(f"ext!{i}!{rand_asgn(rng, k, 0.3)}!{MT_NV}")
             new(MT_NQ)
-        elif c < 0.95:
+        elif c < 0.955:
             off = rng.randint(0, MT_NQ)
             steps.append(f"pre!{i}!{rand_asgn(rng, MT_NQ - off + 1, 0.2)}!{off}")
             new(mi)
